@@ -28,7 +28,7 @@ run_tsan() {
     local bin=target-tsan/$TARGET/release/tyv
     : > $log
     local runs=0 reports=0 obs=""
-    for cfg in "2 6 8" "4 6 8" "8 4 8" "16 3 8" "32 2 8" "4 10 4"; do
+    for cfg in "2 6 8" "4 6 8" "8 4 8" "16 3 8" "32 2 8" "4 10 4" "2 3 300" "4 3 300" "8 2 300" "16 2 300" "32 1 300" "64 1 120"; do
       set -- $cfg
       TSAN_OPTIONS="halt_on_error=0 exitcode=66 report_signal_unsafe=0" $bin stress $1 $2 $3 >> $log 2>&1
       runs=$((runs+1))
@@ -56,6 +56,28 @@ run_miri() { # args: subcommand...
   fi
 }
 
+run_miri_total() { # 8 shards of the mini set in parallel (one miri process is single-threaded)
+  local shards=8 ok=1
+  # build once (shard 8/8 is empty), then run the shards side by side
+  (cd harness && MIRIFLAGS="-Zmiri-disable-isolation -Zmiri-tree-borrows" RUSTFLAGS="--cfg typstyle_verif" cargo +nightly miri run --offline --no-default-features --target-dir /verif/target-miri -- san-total 999 1000 mini) > target/miri-total-build.log 2>&1 || ok=0
+  if [ $ok = 0 ]; then
+    add miri-total build-or-harness-failed 0 0 "" "$(tail -8 target/miri-total-build.log)"
+    return
+  fi
+  for k in $(seq 0 $((shards-1))); do
+    (cd harness && MIRIFLAGS="-Zmiri-disable-isolation -Zmiri-tree-borrows" RUSTFLAGS="--cfg typstyle_verif" cargo +nightly miri run --offline --no-default-features --target-dir /verif/target-miri -- san-total $k $shards mini) > target/miri-total-$k.log 2>&1 &
+  done
+  wait
+  cat target/miri-total-?.log > target/miri-total.log
+  local rep=$(grep -c -E "Undefined Behavior|Data race|error: unsupported" target/miri-total.log || true)
+  local done_=$(grep -c '^SAN-TOTAL' target/miri-total.log || true)
+  if [ "$rep" = "0" ] && [ "$done_" != "$shards" ]; then
+    add miri-total build-or-harness-failed 0 0 "" "$(tail -8 target/miri-total.log)"
+  else
+    add miri-total ok $shards $rep "$(grep -E '^SAN-TOTAL' target/miri-total.log | tr '\n' ';')" "$(grep -B2 -A14 -E 'Undefined Behavior|Data race' target/miri-total.log | head -60)"
+  fi
+}
+
 run_asan() {
   local log=target/asan.log
   if (cd harness && RUSTFLAGS="--cfg typstyle_verif -Zsanitizer=address -Cforce-frame-pointers=yes" cargo +nightly build --offline --release --no-default-features --target $TARGET --target-dir /verif/target-asan) > target/asan-build.log 2>&1; then
@@ -75,8 +97,8 @@ run_asan() {
 }
 
 case "$PROP" in
-  C17) run_tsan; run_miri stress stress 3 1 4 ;;
-  C05) run_asan; MIRI_SEEDS=1 run_miri total san-total 0 1 mini ;;
+  C17) run_tsan; MIRI_SEEDS=${MIRI_SEEDS:-32} run_miri stress stress 3 1 4 ;;
+  C05) run_asan; run_miri_total ;;
 esac
 
 printf '{"tools":[%s]}\n' "$(IFS=,; echo "${entries[*]}")" > $OUT
